@@ -8,6 +8,8 @@ bcrypt-sha256).  Parts:
             5000; pbkdf2 1..10; bcrypt cost 4, 5): the libpass-made hash verifies under passlib and under libpass, the
             passlib-made hash verifies under libpass, near-miss passwords verify nowhere, the libpass hasher identifies
             both, its update check is False for its own hash and True under another cost.
+  foreign_salt  sha-crypt salts outside ./0-9A-Za-z (blank, ':', '!', TAB, '=', non-ASCII; text and bytes): refused by
+            the libpass hasher, or else the hash verifies on both sides.
   fresh     hash() with the hasher's own generated salt: verifies under both, needs_update False.
   identify  6 libpass hashers x sample hashes of every usable registered passlib hasher: identify is the identity on
             formats; needs_update is True for every foreign format.
@@ -503,7 +505,33 @@ def eval_salt_cost(case):
     return out
 
 
-EVALS = {"salt_cost": eval_salt_cost, "interop": eval_interop, "fresh": eval_fresh, "identify": eval_identify, "context": eval_context, "farcost": eval_farcost}
+FOREIGN_SALTS = ("sa!t", "a b", "user:realm", "tab\there", "sixteen-chars-16", "=", "é", "日本")
+
+
+def eval_foreign_salt(case):
+    """a salt outside the crypt alphabet ./0-9A-Za-z (which the classic hasher's parser insists on): the libpass hasher
+    refuses it (ValueError), or else the hash it makes is a hash of the shared format -- it verifies on both sides"""
+    fmt, p, salt, rounds = case["fmt"], case["password"], case["salt"], case["rounds"]
+    lp = lp_hasher(fmt, rounds)
+    out = []
+    for form, sv in (("text", salt), ("bytes", salt.encode("utf-8"))):
+        try:
+            h = lp.hash(p, salt=sv)
+        except ValueError:
+            continue
+        except Exception as e:  # noqa: BLE001
+            out.append((f"C20|{fmt}|foreign_salt:libpass_hash:raises:{_exc(e)}", f"libpass {fmt} hash(salt={sv!r}) raised {e!r}"))
+            continue
+        for side in ("libpass", "passlib"):
+            r = _verify(side, fmt, rounds, h, p)
+            if r[0] == "exc":
+                out.append((f"C20|{fmt}|foreign_salt:{side}_verify:raises:{_exc(r[1])}", f"libpass {fmt} hash({p!r}, salt={sv!r}) = {h!r}; {side} verify raised {r[1]!r}"))
+            elif r[1] is not True:
+                out.append((f"C20|{fmt}|foreign_salt:{side}_verify:own_password_rejected", f"libpass {fmt} hash({p!r}, salt={sv!r}) = {h!r} does not verify under {side}"))
+    return out
+
+
+EVALS = {"foreign_salt": eval_foreign_salt, "salt_cost": eval_salt_cost, "interop": eval_interop, "fresh": eval_fresh, "identify": eval_identify, "context": eval_context, "farcost": eval_farcost}
 
 
 def replay(case):
@@ -631,6 +659,8 @@ def work(task):
             acc.axis("identify_scheme", case["scheme"])
         elif part == "farcost":
             acc.cls(part, case["fmt"], case["cost"])
+        elif part == "foreign_salt":
+            acc.cls(part, case["fmt"], case["salt"], case["rounds"])
         elif part == "salt_cost":
             acc.cls(part, case["fmt"], case["rounds"], case["salt_cost"], case["salt"][:2])
             acc.axis("salt_cost_vs_hasher", "equal" if case["rounds"] == case["salt_cost"] else "lower" if case["salt_cost"] < case["rounds"] else "higher")
@@ -694,6 +724,11 @@ def run(ctx):
     for f in FORMATS:
         for cost in FAR_COSTS[KIND[f]]:
             cases.append({"part": "farcost", "fmt": f, "cost": cost, "seed": seed})
+    for f in FORMATS:
+        if KIND[f] == "sha":
+            for salt in FOREIGN_SALTS:
+                for r in (1000, 5000):
+                    cases.append({"part": "foreign_salt", "fmt": f, "password": PW, "salt": salt, "rounds": r})
     # lists naming the same format twice (two costs of one format; with and without another format in between)
     for f in FORMATS:
         g = FORMATS[(FORMATS.index(f) + 1) % len(FORMATS)]
